@@ -4,9 +4,11 @@ from .util import call
 
 ID = 'C03'
 LEAN_MODULE = 'KernProofs.C03'
-EXTRA_MODULES = ['KernProofs.C03Chord']
+EXTRA_MODULES = ['KernProofs.C03Chord', 'KernProofs.C03Doc']
 THEOREMS = ['KM.C03.elemOut_eq', 'KM.C03.strip_noSep', 'KM.C03.strip_append', 'KM.C03.strip_joinSep_tok', 'KM.C03.strip_joinSep_dec', 'KM.C03.mem_addDecs', 'KM.C03.addDecs_acc_subset', 'KM.C03.mem_addDecs_of_mem', 'KM.C03.nodup_addDecs', 'KM.C03.sorted_decs', 'KM.C03.durSubs_flat', 'KM.C03.durSubs_ok', 'KM.C03.pdOf_sorted', 'KM.C03.pdOf_flat', 'KM.C03.allF_true', 'KM.C03.filter_allF', 'KM.C03.sigs_ok', 'KM.C03.pd_encs_ok', 'KM.C03.strip_withDec', 'KM.C03.pdOf_ne_nil', 'KM.C03.C03_element', 'KM.C03.C03_single', 'KM.C03.C03_other_verbatim', 'KM.C03.C03_barline', 'KM.C03.C03_grid', 'KM.strLe_trans', 'KM.strLe_antisymm', 'KM.decLe_antisymm', 'KM.Spec.strictSorted_ext',
-            'KM.C03.zipNotes_chordWalk', 'KM.C03.strip_joinSpace', 'KM.C03.chordDurs_ok', 'KM.C03.C03_chord', 'KM.C03.C03_cell']
+            'KM.C03.zipNotes_chordWalk', 'KM.C03.strip_joinSpace', 'KM.C03.chordDurs_ok', 'KM.C03.C03_chord', 'KM.C03.C03_cell',
+            'KM.C03D.cellBody_all', 'KM.C03D.appendRow_spec', 'KM.C03D.rowOfStage_spec', 'KM.C03D.bodyRows_spec', 'KM.C03D.export_of_skeleton_tokens',
+            'KM.C03D.C03_export_of_text', 'KM.C03D.cellOfTok_tokOf']
 FINGERPRINTS = ['tokens.NoteRestToken.export', 'tokens.ChordToken.export', 'tokens.SimpleToken.export', 'tokenizers.KernTokenizer.tokenize',
                 'tokenizers.EkernTokenizer.tokenize', 'base_antlr_spine_parser_listener', 'exporter.Exporter.export_string',
                 'exporter.Exporter.append_row', 'exporter.Exporter.export_token', 'importer.Importer']
